@@ -474,9 +474,12 @@ impl FieldParser {
         input: &[u8],
         template: Template,
     ) -> IResult<&[u8], Vec<BTreeMap<usize, V9FieldPair>>> {
-        let record_count = input
-            .len()
-            .saturating_div(usize::from(template.get_total_size()));
+        let total_size = usize::from(template.get_total_size());
+        if total_size == 0 {
+            // A template whose fields add up to zero bytes cannot describe a data record.
+            return Err(NomErr::Error(NomError::new(input, ErrorKind::Verify)));
+        }
+        let record_count = input.len().saturating_div(total_size);
 
         let (remaining, fields) = (0..record_count).fold(
             (input, Vec::new()), // Initial accumulator: (fields, remaining)
